@@ -208,7 +208,7 @@ def linkValidate (ctrlRoute : String) (m : Method) : List Diag :=
   -- the FIRST @Route: the one the route is reduced, documented and served under (`classifyAttributes`; the last one
   -- before the fix for C10-F4)
   let route := ((m.annots.filter (·.name = "Route")).head?.map (·.value)).getD ""
-  let urlParams := extractUrlParams ctrlRoute ++ extractUrlParams route
+  let urlParams := extractUrlParams (ctrlRoute ++ route)
   let pathAttrs := m.annots.filter (·.name = "Path")
   -- the parameters an annotation can bind: the request context is not one of them (`getReceiverParamsNameSet`, fix for
   -- C10-F6)
